@@ -1,6 +1,6 @@
 import extract
 import callgraph
-from rules import c19, recursion, common
+from rules import c19, recursion, bufbudget, common
 
 
 def run(res, tier, replay=None):
@@ -9,6 +9,7 @@ def run(res, tier, replay=None):
     c19.run_a(prog, res)
     cg = callgraph.CallGraph(prog)
     recursion.run(prog, res, "C19", "C19.b", roots=None, floor=2, cg=cg, only_units={"json.c"})
+    bufbudget.run(prog, res, "C19", "C19.c", {"json.c"}, floor=1)
     res.assumptions = common.ASSUMPTIONS
     res.explanation = (
         "C19 structural clauses: (a) for every generated accessor stub of lib/scheme/bytevector.stub and "
@@ -16,9 +17,10 @@ def run(res, tier, replay=None):
         "offset to an accessor helper, the helper's access width (memcpy size / indexed element size, summarised through the "
         "static helpers) and the branch conditions dominating the call must imply 0 <= off and off + width <= length of the "
         "same object (uniform vectors: 0 <= i < uvector-length of the same vector); (b) the recursion cycles of lib/chibi/json.c "
-        "go through a verified depth bound. Not decided: encode/decode inverses, base64/QP/URI/CSV (Scheme), mini-floats.")
+        "go through a verified depth bound; (c) growable string buffers of json.c: the index advances by at most K between two evaluations of the growth guard `i + K >= size`. Not decided: encode/decode inverses, base64/QP/URI/CSV (Scheme), mini-floats.")
     if tier == "thorough":
         common.thorough_mutations(res, "C19", {
             "C19.a": lambda p, r: c19.run_a(p, r, floor=0),
+            "C19.c": lambda p, r: bufbudget.run(p, r, "C19", "C19.c", {"json.c"}, floor=0),
             "C19.b": lambda p, r: recursion.run(p, r, "C19", "C19.b", roots=None, floor=0, only_units={"json.c"}),
         })
